@@ -57,7 +57,8 @@ Qed.
 (* ------------------------------------------------------------------ payload transformations *)
 Definition ptake (j : Z) (a : acv) : acv := (fst a, takez j (snd a)).
 Definition pdrop (t : Z) (a : acv) : acv := (fst a, dropz t (snd a)).
-Definition pmap (f : cell -> cell) (a : acv) : acv := (fst a, map (map f) (snd a)).
+Definition rowmap (f : cell -> cell) : row -> row := map f.
+Definition pmap (f : cell -> cell) (a : acv) : acv := (fst a, map (rowmap f) (snd a)).
 Definition slot_map (T : acv -> acv) (s : slot) : slot :=
   match s with Free w => Free w | Busy a => Busy (T a) end.
 
@@ -105,7 +106,7 @@ Proof. intros E. rewrite nthz_map. destruct (nthz l k); cbn [option_map]; auto. 
 Lemma arow_pmap f body k : arow (map (pmap f) body) k = map f (arow body k).
 Proof.
   unfold arow. induction body as [|a b IH]; cbn [map flat_map]; [reflexivity|].
-  rewrite IH, map_app. f_equal. cbn [pmap snd]. apply (nthz_map_default (map f) (snd a) k [] []). reflexivity.
+  rewrite IH, map_app. f_equal. cbn [pmap snd]. apply (nthz_map_default (rowmap f) (snd a) k [] []). reflexivity.
 Qed.
 
 (* ------------------------------------------------------------------ closed slot lists *)
@@ -273,16 +274,22 @@ Proof.
     cbn zeta in C, D. split; [constructor; assumption|]. now rewrite D, B. }
   split.
   - constructor; [|assumption]. cbn [snd]. destruct (keep <? n + done); cbn [snd]; exact F1.
-  - rewrite <- I2. f_equal. destruct (keep <? n + done) eqn:E2; unfold abs_sh; cbn [fst snd]; rewrite F2; f_equal; lia.
+  - cbn [map]. rewrite <- I2. f_equal. destruct (keep <? n + done) eqn:E2; unfold abs_sh; cbn [fst snd]; rewrite F2; f_equal; lia.
 Qed.
 
 (* ------------------------------------------------------------------ attribute maps *)
 Definition ashmap (f : cell -> cell) (s : ashard) : ashard := (fst s, map (pmap f) (snd s)).
 
-Lemma pmap_ok f a : acv_ok a -> acv_ok (pmap f a).
+Lemma row_clean_map (f : cell -> cell) r : (forall c, ck (f c) = ck c) -> row_cleanb (map f r) = row_cleanb r.
 Proof.
-  intros [? H]. split; cbn [pmap fst snd]; [assumption|]. apply Forall_forall. intros r Hr.
-  apply in_map_iff in Hr as (r0 & <- & Hr0). rewrite zlen_map. rewrite Forall_forall in H. auto.
+  intros Hf. unfold row_cleanb. f_equal.
+  - destruct r as [|c r]; [reflexivity|]. cbn [map first_okb]. now rewrite Hf.
+  - induction r as [|c r IH]; [reflexivity|]. cbn [map last_okb]. destruct r as [|c' r']; [now rewrite Hf|]. cbn [map] in *. exact IH.
+Qed.
+Lemma pmap_ok f a : (forall c, ck (f c) = ck c) -> acv_ok a -> acv_ok (pmap f a).
+Proof.
+  intros Hf [? H]. split; cbn [pmap fst snd]; [assumption|]. apply Forall_forall. intros r Hr.
+  apply in_map_iff in Hr as (r0 & <- & Hr0). unfold rowmap. rewrite zlen_map, row_clean_map by assumption. rewrite Forall_forall in H. auto.
 Qed.
 Lemma slots_after_pmap f n body : slots_after n (map (pmap f) body) = map (slot_map (pmap f)) (slots_after n body).
 Proof.
@@ -292,20 +299,20 @@ Qed.
 Lemma arows_pmap f body k m : arows (map (pmap f) body) k m = map (map f) (arows body k m).
 Proof. revert k; induction m as [|m IH]; intros k; cbn [arows map]; [reflexivity|]. now rewrite arow_pmap, IH. Qed.
 
-Lemma amap_correct w f : forall ss sl,
+Lemma amap_correct w f : (forall c, ck (f c) = ck c) -> forall ss sl,
   AWF w ss sl ->
   AWF w (map (ashmap f) ss) (map (slot_map (pmap f)) sl) /\
   acontent_from (map (ashmap f) ss) (map (slot_map (pmap f)) sl) = map (map f) (acontent_from ss sl).
 Proof.
-  induction ss as [|[n cvs] ss IH]; intros sl H.
+  intros Hf. induction ss as [|[n cvs] ss IH]; intros sl H.
   - cbn [map AWF acontent_from] in *. split; [now apply closed_map|reflexivity].
   - cbn [AWF acontent_from map ashmap fst snd] in H |- *. destruct H as (Hn & Fa & body & Ef & Fo & Fn & Hw & Hr).
     assert (fill (map (slot_map (pmap f)) sl) (map (pmap f) cvs) 0 = Ok (map (pmap f) body)) as Ef'.
     { rewrite fill_map by reflexivity. now rewrite Ef. }
     rewrite Ef', Ef. destruct (IH _ Hr) as [I1 I2]. rewrite slots_after_pmap. split.
-    + split; [assumption|]. split; [apply Forall_forall; intros a Ha; apply in_map_iff in Ha as (a0 & <- & Ha0); apply pmap_ok; rewrite Forall_forall in Fa; auto|].
+    + split; [assumption|]. split; [apply Forall_forall; intros a Ha; apply in_map_iff in Ha as (a0 & <- & Ha0); apply pmap_ok; [assumption|]; rewrite Forall_forall in Fa; auto|].
       exists (map (pmap f) body). split; [reflexivity|].
-      split; [apply Forall_forall; intros a Ha; apply in_map_iff in Ha as (a0 & <- & Ha0); apply pmap_ok; rewrite Forall_forall in Fo; auto|].
+      split; [apply Forall_forall; intros a Ha; apply in_map_iff in Ha as (a0 & <- & Ha0); apply pmap_ok; [assumption|]; rewrite Forall_forall in Fo; auto|].
       split; [apply Forall_forall; intros a Ha; apply in_map_iff in Ha as (a0 & <- & Ha0); cbn [pmap snd]; rewrite zlen_map; rewrite Forall_forall in Fn; auto|].
       split; [now rewrite body_width_map|]. now rewrite slots_after_pmap.
     + rewrite I2, arows_pmap, map_app. reflexivity.
@@ -382,7 +389,8 @@ Proof.
         split; [apply Forall_forall; intros a Ha; apply in_map_iff in Ha as (a0 & <- & Ha0); cbn [pdrop snd]; rewrite Forall_forall in Fz; specialize (Fz _ Ha0); rewrite zlen_dropz_le by lia; lia|].
         split; [rewrite body_width_map by reflexivity; rewrite <- body_cols_abs; assumption|]. rewrite Es. assumption.
       * rewrite dropz_app_l by (rewrite zlen_arows; lia). f_equal. rewrite dropz_arows by lia.
-        rewrite Z.add_0_l. replace top with (top + 0) at 2 by lia. apply arows_shift. intros j Hj. apply arow_pdrop; lia.
+        rewrite Z.add_0_l. transitivity (arows (map abs_e sb) (top + 0) (Z.to_nat (n - top))); [|f_equal; lia].
+        apply arows_shift. intros j Hj. apply arow_pdrop; lia.
     + (* skip this shard *)
       destruct (IH (stail n sb) (slots_after n (map abs_e sb)) (top - n) T' E' Hr) as (ss' & R1 & R2 & R3 & R4 & R5); [lia|].
       exists ss'. split; [assumption|]. split; [assumption|]. split; [assumption|]. split; [assumption|].
@@ -438,6 +446,13 @@ Proof.
   pose proof (zlen_nonneg (acontent_from (map abs_sh s) (slots_after n body))). lia.
 Qed.
 
+Lemma shards_rows_app s1 s2 : shards_rows (s1 ++ s2) = shards_rows s1 + shards_rows s2.
+Proof.
+  induction s1 as [|[n c] s1 IH]; cbn [app shards_rows fold_right fst].
+  - fold (shards_rows s2). lia.
+  - fold (shards_rows (s1 ++ s2)). fold (shards_rows s1). rewrite IH. lia.
+Qed.
+
 (* CanvasCombine on shard lists *)
 Theorem combine_shards s1 s2 r1 r2 :
   WF s1 -> WF s2 -> shards_cols s1 = shards_cols s2 -> content s1 = Ok r1 -> content s2 = Ok r2 ->
@@ -451,8 +466,7 @@ Proof.
   destruct (WF_intro _ _ Hc1 Hne (proj2 (Forall_app _ _ _) (conj S1 S2)) A) as [W Ecols].
   split; [assumption|]. split.
   - destruct (WF_elim _ W) as (_ & _ & _ & C'). rewrite C', C. rewrite C1 in E1. rewrite C2 in E2. congruence.
-  - split; [assumption|]. unfold shards_rows. rewrite fold_right_app.
-    generalize (fold_right (fun (s : shard) acc => fst s + acc) 0 s2) as z. clear. induction s1 as [|[n c] s1 IH]; intros z; cbn [fold_right fst]; [lia|]. rewrite IH. lia.
+  - split; [assumption|]. apply shards_rows_app.
 Qed.
 
 (* shards_trim_rows *)
@@ -500,6 +514,11 @@ Proof.
   split; [constructor; assumption|]. fold (fill_shards m s). rewrite I2. unfold abs_sh at 1, ashmap at 1; cbn [fst snd]. now rewrite F2.
 Qed.
 
+Lemma shards_rows_fill m s : shards_rows (fill_shards m s) = shards_rows s.
+Proof.
+  unfold fill_shards, shards_rows. induction s as [|[n c] s IH]; cbn [map fold_right fst]; [reflexivity|]. f_equal. apply IH.
+Qed.
+
 Theorem fill_attr_shards m s rows :
   WF s -> content s = Ok rows ->
   WF (fill_shards m s) /\ content (fill_shards m s) = Ok (map (map (cell_map_attr (Some m))) rows) /\
@@ -507,10 +526,9 @@ Theorem fill_attr_shards m s rows :
 Proof.
   intros H E. destruct (WF_elim _ H) as (Hc & S & A & C).
   destruct (abs_fill_shards m s S) as [S' E'].
-  destruct (amap_correct _ (cell_map_attr (Some m)) _ [] A) as [A' C']. cbn [map] in A', C'. rewrite <- E' in A', C'.
+  destruct (amap_correct _ (cell_map_attr (Some m)) (fun c => eq_refl) _ [] A) as [A' C']. cbn [map] in A', C'. rewrite <- E' in A', C'.
   assert (fill_shards m s <> []) as Hne by (destruct s; [cbn in Hc; lia|discriminate]).
   destruct (WF_intro _ _ Hc Hne S' A') as [W Ecols]. split; [assumption|]. split.
-  - destruct (WF_elim _ W) as (_ & _ & _ & C''). rewrite C'', C'. rewrite C in E. congruence.
-  - split; [assumption|]. unfold fill_shards, shards_rows. induction s as [|[n c] s IH]; cbn [map fold_right fst]; [reflexivity|].
-    f_equal. apply IH.
+  - destruct (WF_elim _ W) as (_ & _ & _ & C''). rewrite C'', C'. rewrite C in E. injection E as <-. reflexivity.
+  - split; [assumption|]. apply shards_rows_fill.
 Qed.
